@@ -759,10 +759,43 @@ func c04Backoff(r *core.Run) {
 	// Err: sequence of `if cond { return <non-nil> }` followed by `return nil`
 	var errDNF []clause
 	shape := true
+	// a value read once into a local (`if e := b.ctx.Err(); e != nil`, or `e := ...` before the tests) stands for
+	// the expression it was read from
+	subst := map[string]string{}
+	define := func(st ast.Stmt) bool {
+		as, ok := st.(*ast.AssignStmt)
+		if !ok || as.Tok != token.DEFINE || len(as.Lhs) != 1 || len(as.Rhs) != 1 {
+			return false
+		}
+		id, ok := as.Lhs[0].(*ast.Ident)
+		if !ok {
+			return false
+		}
+		subst[id.Name] = core.ExprString(as.Rhs[0])
+		return true
+	}
+	rename := func(cs []clause) []clause {
+		for i := range cs {
+			for j := range cs[i] {
+				for from, to := range subst {
+					cs[i][j] = replaceToken(" "+cs[i][j], " "+from, " "+to)[1:]
+				}
+			}
+		}
+		return cs
+	}
 	for i, s := range er.Decl.Body.List {
 		switch x := s.(type) {
+		case *ast.AssignStmt:
+			if !define(x) {
+				shape = false
+			}
 		case *ast.IfStmt:
-			if x.Else != nil || x.Init != nil || len(x.Body.List) != 1 {
+			if x.Init != nil && !define(x.Init) {
+				shape = false
+				break
+			}
+			if x.Else != nil || len(x.Body.List) != 1 {
 				shape = false
 				break
 			}
@@ -776,7 +809,7 @@ func c04Backoff(r *core.Run) {
 				shape = false
 				break
 			}
-			errDNF = append(errDNF, c...)
+			errDNF = append(errDNF, rename(c)...)
 		case *ast.ReturnStmt:
 			if i != len(er.Decl.Body.List)-1 || len(x.Results) != 1 || !isNilIdent(er.Pkg.TypesInfo, x.Results[0]) {
 				shape = false
